@@ -1,7 +1,7 @@
 (* Props_C14.v — C14: location flags follow bounding-box membership and hop distance.
    Only statements, `exact <lemma>` and Print Assumptions.
    (statements written out by tools/mk_props.py from the lemmas they restate) *)
-From IoosQc Require Import Base Generated Location LocationProofs.
+From IoosQc Require Import Base Generated Location LocationProofs Skel SkelProofs.
 
 
 (* for EVERY geodesic function, every track length and missing pattern, every box and range_max >= 0 (or absent): the operational model equals the per-position decision list; bbox arity and shape mismatch are rejected (both sides) *)
@@ -138,6 +138,18 @@ Theorem C14_negative_range_refuted :
            location_model geod bbox range_max lon lat <> location_spec geod bbox range_max lon lat.
 Proof. exact (@location_refuted). Qed.
 Print Assumptions C14_negative_range_refuted.
+
+(* TRANSLATOR TIE: the skeleton generated from the current source of location_test (masks, guards `range_max is not None and lon.size > 1`, the four box comparisons, order MISSING / FAIL / SUSPECT / FAIL) run in the model's environment yields exactly the model's flags, for every geodesic *)
+Theorem C14_source_skeleton :
+  forall (geod : Q -> Q -> Q -> Q -> Q) (minx miny maxx maxy : Q) 
+           (rm : option Q) (lon lat : list obs),
+         length lon = length lat ->
+         location_model geod [minx; miny; maxx; maxy] rm lon lat =
+         Flags
+           (run_steps (env_loc geod minx miny maxx maxy rm lon lat) skel_location_test
+              (all_flags (length lon) GOOD)).
+Proof. exact (@skel_location). Qed.
+Print Assumptions C14_source_skeleton.
 
 Theorem C14_assign_order : assign_order_location_test = [MISSING; FAIL; SUSPECT; FAIL].
 Proof. reflexivity. Qed.
